@@ -8,6 +8,11 @@ from numpy.random import default_rng
 from scipy.stats import qmc
 
 from ropt.config.enopt import EnOptConfig
+from ropt.ensemble_evaluator import EnsembleEvaluator
+from ropt.evaluator import EvaluatorResult
+from ropt.plugins import PluginManager
+from ropt.plugins.sampler.base import Sampler, SamplerPlugin
+from ropt.plugins.sampler.scipy import SciPySamplerPlugin
 
 from ..core import PropertyCheck
 from ..ropt_util import outcome_of, plugin_manager
@@ -92,9 +97,64 @@ def drive(sc):
                 trace.append(observe(sc, m, samples, outcome, ref, method))
                 if samples is not None and samples.flags.writeable:
                     samples += 3.25        # callers (ropt itself: `samples += other.generate_samples()`) modify the returned array
+        trace += pipeline(sc, cfg, mask)
     feats = {"nontrivial": bool((1 if sc["shared"] else R) * P >= 2 and mask.sum() >= 2), "key": str(sc), "method": method,
              "qmc": method in ENGINES}
     return trace, feats
+
+
+class _SpySampler(Sampler):
+    def __init__(self, inner, index, log):
+        self._inner, self._index, self._log = inner, index, log
+
+    def generate_samples(self):
+        samples = self._inner.generate_samples()
+        self._log.append((self._index, np.array(samples, copy=True)))
+        return samples
+
+
+class _SpyPlugin(SamplerPlugin):
+    """Prioritised stand-in for the bundled sampler plug-in: records what each sampler created by the evaluator returns."""
+
+    def __init__(self, log):
+        self._log, self._real = log, SciPySamplerPlugin()
+
+    def create(self, enopt_config, sampler_index, mask, rng):
+        return _SpySampler(self._real.create(enopt_config, sampler_index, mask, rng), sampler_index, self._log)
+
+    def is_supported(self, method):
+        return self._real.is_supported(method)
+
+
+def pipeline(sc, cfg, mask):
+    """The same samplers as the ensemble evaluator creates and calls them: the highest variable is fixed by
+    variables.mask on top of the sampler assignment; every sampler must stay zero outside the free variables assigned to it."""
+    V = sc["V"]
+    if V < 2:
+        return []
+    cfg = {k: (dict(v) if isinstance(v, dict) else v) for k, v in cfg.items()}
+    free = np.ones(V, dtype=bool); free[V - 1] = False
+    cfg["variables"] = {"initial_values": [0.0] * V, "mask": [bool(b) for b in free]}
+    assign = np.array([0 if m else 1 for m in mask]) if sc["two"] else np.zeros(V, dtype=int)
+    if sc["two"]:
+        cfg["gradient"] = {**cfg["gradient"], "samplers": [int(a) for a in assign]}
+    config = EnOptConfig.model_validate(cfg)
+    log = []
+    pm = PluginManager()
+    pm.add_plugin("sampler", "rvspy", _SpyPlugin(log), prioritize=True)
+
+    def evaluator(variables, context):
+        return EvaluatorResult(objectives=variables.sum(axis=1, keepdims=True))
+
+    ee = EnsembleEvaluator(config, None, evaluator, pm)
+    _, outcome = outcome_of(lambda: ee.calculate(np.zeros(V), compute_functions=True, compute_gradients=True))
+    out = []
+    for index, samples in log:
+        want = free & (assign == index)
+        out.append(observe(sc, want, samples, outcome, None, sc["method"]))
+    if outcome != "ok":
+        out.append(observe(sc, free, None, outcome, None, sc["method"]))
+    return out
 
 
 def model_runs(tier):
@@ -121,7 +181,7 @@ CHECK = PropertyCheck(
     prop="C17", trace_module="Trace_C17", drive=drive, model_runs=model_runs, extra_scenarios=extra_scenarios,
     rule=("TLC enumerates method x R,P<=3 x V<=3 x every non-empty handled-variable mask x shared x single/two samplers and checks the "
           "layout map of SamplerLayout.tla (zeros outside, point integrity, shared identical, distinct points; the as-is transposed "
-          "layout violates point integrity); each scenario calls generate_samples() twice on real samplers; for QMC methods the "
+          "layout violates point integrity); each scenario calls generate_samples() twice on real samplers, and once more through an ensemble evaluator (a recording stand-in plug-in) with a fixed variable on top of the assignment; for QMC methods the "
           "underlying points are re-created from an identically seeded engine. Non-trivial: >=2 points and >=2 handled variables."),
     assumptions=["QMC reference points are used only when their coordinate multiset equals that of the sampler output",
                  "'drawn per realization' is checked as 'not all realizations identical'"],
